@@ -6,7 +6,6 @@ package main
 //
 // Class labels (decidable from the template, not from the outcome):
 //   ""              inside the domain of the isolation theorem
-//   select-multi    one select statement is executed by several goroutines (F08: shared `cases`)
 //   go-bin-args     a go statement calls a binary (host) function and an argument variable is reassigned
 //                   afterwards (F08-2)
 //   select-recv2-expr  `case v, ok := <-expr` with a channel expression that is not an identifier (F08-1)
@@ -146,14 +145,14 @@ func main() {
 `, w, n)}
 }
 
-// per-worker private channels used in the same select statement
+// per-worker private channels used in the same select statement (F08, repaired: inside the domain)
 func tSelectPrivate(r *rand.Rand) Tmpl {
 	w, n := 2+r.Intn(4), 20+r.Intn(200)
 	var b strings.Builder
 	for i := 0; i < w; i++ {
 		fmt.Fprintf(&b, "worker %d own %d wrong 0 ctl %d\n", i, n, 3)
 	}
-	return Tmpl{Name: "select-private", Class: "select-multi", Kind: "prog", Expect: b.String(), Src: fmt.Sprintf(`package main
+	return Tmpl{Name: "select-private", Kind: "prog", Expect: b.String(), Src: fmt.Sprintf(`package main
 
 import (
 	"fmt"
@@ -751,7 +750,7 @@ func tSelectSharedSend(r *rand.Rand) Tmpl {
 	for i := 0; i < w; i++ {
 		sum += (i + 1) * n
 	}
-	return Tmpl{Name: "select-shared-send", Class: "select-multi", Kind: "prog", Expect: fmt.Sprintf("sum %d n %d\n", sum, w*n), Src: fmt.Sprintf(`package main
+	return Tmpl{Name: "select-shared-send", Kind: "prog", Expect: fmt.Sprintf("sum %d n %d\n", sum, w*n), Src: fmt.Sprintf(`package main
 
 import (
 	"fmt"
@@ -1134,7 +1133,7 @@ func Final() int {
 }
 
 func hSelectInside(r *rand.Rand) Tmpl {
-	return hostCommon("host-select-inside", "select-multi", `func F(n int) int {
+	return hostCommon("host-select-inside", "", `func F(n int) int {
 	a := make(chan int, 1)
 	b := make(chan int, 1)
 	a <- n
